@@ -384,6 +384,66 @@ def add_number(reg):
                      assumed='I2OSP, left-padded to a multiple of blocksize; bounded: bounded/number.py against int.to_bytes'))
 
 
+# ---------------------------------------------------------------------------------------------------- raw libraries as seen by the loaders
+
+RAWLIB_FUNCS = {
+    'Crypto.PublicKey._ec_ws': ['ec_ws_new_context', 'ec_ws_free_context', 'ec_ws_new_point', 'ec_ws_free_point', 'ec_ws_get_xy', 'ec_ws_double',
+                                'ec_ws_add', 'ec_ws_scalar', 'ec_ws_clone', 'ec_ws_cmp', 'ec_ws_neg'],
+    'Crypto.PublicKey._ed25519': ['ed25519_new_point', 'ed25519_clone', 'ed25519_free_point', 'ed25519_cmp', 'ed25519_neg', 'ed25519_get_xy',
+                                  'ed25519_double', 'ed25519_add', 'ed25519_scalar'],
+    'Crypto.PublicKey._ed448': ['ed448_new_context', 'ed448_context', 'ed448_free_context', 'ed448_new_point', 'ed448_clone', 'ed448_free_point',
+                                'ed448_cmp', 'ed448_neg', 'ed448_get_xy', 'ed448_double', 'ed448_add', 'ed448_scalar'],
+    'Crypto.PublicKey._curve25519': ['curve25519_new_point', 'curve25519_clone', 'curve25519_free_point', 'curve25519_get_x', 'curve25519_scalar',
+                                     'curve25519_cmp'],
+    'Crypto.PublicKey._curve448': ['curve448_new_context', 'curve448_free_context', 'curve448_new_point', 'curve448_free_point', 'curve448_clone',
+                                   'curve448_get_x', 'curve448_scalar', 'curve448_cmp'],
+}
+
+
+def install_rawlibs(reg):
+    """load_pycryptodome_raw_lib(name, cdecl) for the five EC libraries: a namespace of named native functions.  Only the
+    context constructors are ever CALLED by the loaders; they record their arguments in the ghost fields of a native.EcContext"""
+    from vf.pyvc.interp import ModuleV
+
+    def load(E, st, args, kw):
+        name = args[0]
+        if name not in RAWLIB_FUNCS:
+            raise Unsupported('raw library %r' % (name,))
+        return val(st, ModuleV('native.lib:' + name, None))
+    reg.models['Crypto.Util._raw_api.load_pycryptodome_raw_lib'] = load
+
+    def stub(fname):
+        def fn(E, st, args, kw):
+            raise Unsupported('native function %s called through the loader view of the library' % fname)
+        return fn
+
+    def ws_new_context(E, st, args, kw):
+        out, mod, b, order, ln, seed = args
+        rawapi.oblige_pre(E, st, 'ec_ws_new_context', ['hasattr(out, "g_ptr")', 'len(bytes(m)) == n', 'len(bytes(b)) == n', 'len(bytes(o)) == n',
+                                                       '0 <= seed and seed < pow2(64)'],
+                          {'out': out, 'm': mod, 'b': b, 'o': order, 'n': ln, 'seed': seed})
+        ctx = rawapi.new_native(st, CTX, g_cid=0, g_p=mk_int(_models.be_value(E, st, zbytes(rawapi.buf_data(st, mod)))),
+                                g_b=mk_int(_models.be_value(E, st, zbytes(rawapi.buf_data(st, b)))),
+                                g_order=mk_int(_models.be_value(E, st, zbytes(rawapi.buf_data(st, order)))), g_len=ln)
+        st.heap[out.oid].fields['g_ptr'] = ctx
+        st.writes.append((out.oid, 'g_ptr'))
+        return val(st, 0)
+
+    def plain_new_context(which):
+        def fn(E, st, args, kw):
+            (out,) = args
+            rawapi.oblige_pre(E, st, which, ['hasattr(out, "g_ptr")'], {'out': out})
+            st.heap[out.oid].fields['g_ptr'] = rawapi.new_native(st, CTX, g_cid=0, g_kind=which)
+            st.writes.append((out.oid, 'g_ptr'))
+            return val(st, 0)
+        return fn
+    for lib, fns in RAWLIB_FUNCS.items():
+        for f in fns:
+            impl = {'ec_ws_new_context': ws_new_context, 'ed448_new_context': plain_new_context('ed448'),
+                    'curve448_new_context': plain_new_context('curve448')}.get(f, stub(f))
+            reg.overrides['native.lib:%s.%s' % (lib, f)] = BuiltinV(f, impl)
+
+
 def ecc_registry(cid):
     reg = key_base_registry()
     add_number(reg)
